@@ -634,13 +634,25 @@ func init() {
 			}, nil, noPanic)
 	}
 	runners["C18"] = func(cfg *runCfg) (*Summary, error) {
+		sum, err := runC18(cfg)
+		if err == nil {
+			strconvOracle(cfg, sum)
+		}
+		return sum, err
+	}
+}
+
+func runC18(cfg *runCfg) (*Summary, error) {
+	{
 		return runInterp(cfg, "C18", 260, 3000,
-			"builtin modifiers default / ifThen / ifThenElse over every incoming-value type and emptiness class (absent, null, empty / non-empty string, 0 / non-zero number, false / true; vector nodes, struct fields, static variables) with 0-2 arguments; getters atoi / atou / atob / itoa / utoa / crc32 over digit, sign, blank and letter strings, int64/uint64 boundaries, byte strings and argument splits; arities 0-3",
+			"builtin modifiers default / ifThen / ifThenElse over every incoming-value type and emptiness class (absent, null, empty / non-empty string, 0 / non-zero number, false / true; vector nodes, struct fields, static variables) with 0-2 arguments; getters atoi / atou / atob / itoa / utoa / crc32 over digit, sign, blank and letter strings, int64/uint64 boundaries, byte strings and argument splits; arities 0-3; direct oracle: atoi / atou / atof / atob (and their long names) against strconv.ParseInt / ParseUint / ParseFloat / ParseBool on curated boundary texts and random texts over digits, signs, dots, exponents, blanks and letters (length 0-8), the argument given as a vector node, a static string variable and a literal: same value, and an error of the same kind exactly when strconv fails",
 			func(r *prng, i int, st map[string]int) *ICase {
 				return singleJob("builtins", genBuiltinJob(r, st))
 			}, nil, noPanic)
 	}
 }
+
+func init() { _ = runC18 }
 
 // ------------------------------------------------------------------ C17 generator
 
